@@ -140,6 +140,7 @@ var sigs = map[string]sig{
 	"redactNamespace":                 {},
 	"RedactMongoLog":                  {},
 	"ReadKeyFromFile":                 {},
+	"WriteKeyToFile":                  {},
 }
 
 // functions that call one another: emitted in one `mutual` block, all with a fuel argument
@@ -148,7 +149,7 @@ var mutualGroups = [][]string{{"redactQueryValues", "redactArrayValuesWithKey"}}
 // emission order (callees first)
 var order = []string{"HashName", "reMatchesAnyKeyInPath", "redactString", "IsEmail", "withinSearchUserDocument", "RemoveElementAfter", "RemoveElementsBeforeIncluding",
 	"traverseMapPath", "getOp", "redactScalarValue", "isFieldNameValue", "isRedactableFieldPatternInArray", "isInSearchStage", "augmentOp",
-	"redactQueryValues", "redactArrayValuesWithKey", "redactArrayValues", "redactNamespaceFields", "redactOperation", "redactCommand", "redactNamespace", "RedactMongoLog", "ReadKeyFromFile"}
+	"redactQueryValues", "redactArrayValuesWithKey", "redactArrayValues", "redactNamespaceFields", "redactOperation", "redactCommand", "redactNamespace", "RedactMongoLog", "ReadKeyFromFile", "WriteKeyToFile"}
 
 type gname struct {
 	lean string
@@ -430,7 +431,12 @@ func (x *tr) expr(e ast.Expr) ex {
 			}
 			return ex{strLean(s), T("Str"), false}
 		case token.INT:
-			return ex{"(" + v.Value + " : Int)", T("Int"), false}
+			// Go spells integers in several bases (0600 is octal): emit the value in decimal
+			n, err := strconv.ParseInt(v.Value, 0, 64)
+			if err != nil {
+				x.bad(v, "integer literal")
+			}
+			return ex{"(" + strconv.FormatInt(n, 10) + " : Int)", T("Int"), false}
 		case token.CHAR:
 			c, _, _, err := strconv.UnquoteChar(v.Value[1:len(v.Value)-1], '\'')
 			if err != nil || c > 126 || c < 32 || c == '\'' || c == '\\' {
@@ -784,6 +790,12 @@ func (x *tr) call(c *ast.CallExpr) ex {
 		a := args()
 		if len(a) == 1 && a[0].t.k == "Str" {
 			return ex{"(errPair (g.ReadFile " + a[0].s + "))", &ty{k: "Tuple", elems: []*ty{T("Bytes"), T("Err")}}, a[0].partial}
+		}
+	case "os.WriteFile":
+		// the write is the function's only effect: its three arguments (path, content, permission bits) are what the parameter sees
+		a := args()
+		if len(a) == 3 && a[0].t.k == "Str" && a[1].t.k == "Bytes" && a[2].t.k == "Int" {
+			return ex{"(g.WriteFile " + a[0].s + " " + a[1].s + " " + a[2].s + ")", T("Err"), anyPartial(a)}
 		}
 	case "base64.StdEncoding.DecodeString":
 		// DecodeString(string(b)) for a byte slice b: the decoder reads the bytes
